@@ -1,7 +1,7 @@
 (* Props_C18.v — C18: reply cascades terminate (PARTIAL: per-delivery mechanisms).
    The whole-network termination statement is decided by the frozen-timer simulation of
    real instances; proved here: what each message kind can trigger. *)
-From Foca Require Import Laws MembersM FocaM WireM L_Members L_MembersInv Inv L_Wire L_Discard L_Probe L_Mech L_FanOut.
+From Foca Require Import Laws MembersM FocaM WireM L_Members L_MembersInv Inv L_Wire L_Discard L_Probe L_Mech L_FanOut L_FanOutSharp.
 
 Section C18.
 Context {Id Addr : Type} {IO : IdOps Id Addr} {CO : CodecOps Id} {HO : HandlerOps Id}.
@@ -78,6 +78,37 @@ Theorem C18_fanout_terms (es : list (effect Id)) (data : bytes) :
      end.
 Proof. split; reflexivity. Qed.
 
+(* THE SHARP BOUND: with F = num_indirect_probes and a0 the receiver's own address, one delivered datagram
+   causes at most F * (k_own + [it is a TurnUndead]) + 1 new datagrams, k_own the number of member
+   updates it carries about the receiver's own address; so a datagram that says nothing about the
+   receiver's address and is not a TurnUndead is answered by at most ONE datagram *)
+Theorem C18_delivery_fanout_sharp (rnd : oracle) (F : N) (a0 : Addr) (f : @foca Id Addr HO) (data : bytes) :
+  num_indirect_probes (cfg f) = F -> addr_of (identity f) = a0 ->
+  L_FanOutSharp.nsends (snd (fst (fst (step rnd f (IData data))))) <= F * own_updates_in a0 data + 1.
+Proof. exact (step_data_fanout_sharp rnd F a0 f data). Qed.
+
+Theorem C18_plain_datagram_one_reply (rnd : oracle) (F : N) (a0 : Addr) (f : @foca Id Addr HO) (data : bytes) :
+  num_indirect_probes (cfg f) = F -> addr_of (identity f) = a0 -> own_updates_in a0 data = 0 ->
+  L_FanOutSharp.nsends (snd (fst (fst (step rnd f (IData data))))) <= 1.
+Proof. exact (step_data_one_reply rnd F a0 f data). Qed.
+
+Theorem C18_sharp_terms (a0 : Addr) (es : list (effect Id)) (data : bytes) (l : list (member Id)) (msg : message Id) :
+  L_FanOutSharp.nsends es = len (filter is_send es)
+  /\ kown a0 l = len (filter (fun u => addr_eqb (addr_of (m_id u)) a0) l)
+  /\ tu msg = (if message_eqb id_eqb msg TurnUndead then 1 else 0)
+  /\ own_updates_in a0 data =
+     match dec_hdr data with
+     | Some (h, rest) =>
+         (if (2 <=? len rest) && negb (message_eqb id_eqb (h_msg h) Broadcast) then
+            match get_u16 rest with
+            | Some (n, r) => match dec_members (N.to_nat n) r with Some (ul, _) => kown a0 ul | None => 0 end
+            | None => 0
+            end
+          else 0) + tu (h_msg h)
+     | None => 0
+     end.
+Proof. repeat split. Qed.
+
 End C18.
 
 Print Assumptions C18_terminal_kinds.
@@ -86,3 +117,6 @@ Print Assumptions C18_no_turnundead_ping_pong.
 Print Assumptions C18_inactive_sender_one_reply.
 Print Assumptions C18_delivery_fanout_bound.
 Print Assumptions C18_fanout_terms.
+Print Assumptions C18_delivery_fanout_sharp.
+Print Assumptions C18_plain_datagram_one_reply.
+Print Assumptions C18_sharp_terms.
